@@ -96,6 +96,22 @@ def check_closest(case, ctx):
         shared_filters = {}
         for q in case["queries"]:
             t, filters = q["t"], q["filters"]
+            if q.get("reexclude") is not None:
+                # history: the exclusion lists of the one object are replaced
+                # (or withdrawn) between two queries
+                ctx.label("exclusion-replaced")
+                rx = q["reexclude"]
+                excl_paths = set()
+                for i in rx["files"]:
+                    if pop.files:
+                        excl_paths.add(pop.files[i % len(pop.files)].path)
+                excl_periods = [tuple(p) for p in rx["periods"]]
+                fileset.exclude_files(sorted(excl_paths))
+                if not excl_periods:
+                    ctx.label("excluded-periods-withdrawn")
+                fileset.exclude_times(
+                    excl_periods if excl_periods or rx["empty_as_list"]
+                    else None)
             filters_arg = None
             if filters is not None:
                 key = repr(sorted(filters.items()))
@@ -317,7 +333,16 @@ def closest_cases(draw):
             t = draw(G.instants(res))
         if not G.year_ok(tpl, t.year):
             t = t.replace(year=2018, day=min(t.day, 28))
-        queries.append({"t": t,
+        rx = None
+        if queries and draw(st.integers(0, 5)) == 0:
+            periods = []
+            if bounds and draw(st.booleans()):
+                a = draw(st.sampled_from(bounds))
+                periods.append([a, a + draw(st.sampled_from(
+                    [dt.timedelta(0), unit, dt.timedelta(hours=3)]))])
+            rx = {"files": draw(st.lists(st.integers(0, 30), max_size=2)),
+                  "periods": periods, "empty_as_list": draw(st.booleans())}
+        queries.append({"t": t, "reexclude": rx,
                         "filters": (queries[0]["filters"]
                                     if queries
                                     and queries[0]["filters"] is not None
